@@ -390,6 +390,7 @@ def rule_helmholtz(ctx, mod, ci):
                     if p.kind != "return":
                         ok, why = False, "with %s: %s %r" % (label, p.kind, p.value)
                         break
+                    o = p.interp.args[0]
                     nm, oc = o.attrs.get("name"), o.attrs.get("octave")
                     try:
                         head, net_out, _ = decompose(nm, p.interp)
